@@ -535,7 +535,7 @@ ANCHORS: dict[str, list[str]] = {
     'C19': ['_base/config.py:Config.__init__', '_base/config.py:Config.__enter__', '_base/config.py:Config.__exit__', '_base/config.py:Config.instance',
             '_base/core.py:InverseOperator.__init__', '_base/core.py:InverseOperator.mv'],
     'C20': ['landscapes.py:StokesPyTree._operation', 'landscapes.py:StokesPyTree._roperation', 'landscapes.py:StokesPyTree.class_for',
-            'landscapes.py:StokesPyTree.structure_for', 'landscapes.py:StokesPyTree.from_stokes', 'landscapes.py:StokesPyTree.from_iquv',
+            'landscapes.py:StokesPyTree.structure_for', 'landscapes.py:StokesPyTree.from_stokes', 'landscapes.py:Stokes*PyTree.from_iquv',
             'landscapes.py:StokesPyTree.zeros', 'landscapes.py:StokesPyTree.ones', 'landscapes.py:StokesPyTree.full', 'landscapes.py:StokesPyTree.normal',
             'landscapes.py:StokesPyTree.uniform', 'tree.py:dot', 'tree.py:as_promoted_dtype', 'tree.py:as_structure', 'tree.py:full_like', 'tree.py:zeros_like',
             'tree.py:ones_like', 'tree.py:normal_like', 'tree.py:uniform_like', 'tree.py:is_leaf'],
